@@ -6,7 +6,7 @@ CLAIMED = {
     "C20": dict(
         engine="D",
         technique="deterministic simulation: seeded histories of generator calls under simulated os.urandom and disturbed global PRNG state, fresh-process differential oracle, stream reference models",
-        text="Seeded exploration of call histories (all registry names, n in 1..2048 plus larger n at every residue mod 64, seed classes up to >2^160, repeated/interleaved calls, host disturbance of random/numpy global state, re-keyed simulated entropy). Range is checked on every call; purity against the same triple elsewhere in the history and in a fresh process with another entropy key; java.util.Random/BigInteger and truncated-LCG reference models. Sampling, not proof; the two recorded defects (F6, F7) are reported as KNOWN-FINDING.",
+        text="Seeded exploration of call histories (all registry names, n in 1..2048 plus larger n at every residue mod 64, seed classes up to >2^160, repeated/interleaved/adjacent same-seed calls, freshly constructed instances, host disturbance of random/numpy global state, re-keyed simulated entropy). Every n in 1..2048 is visited for every generator (one seed each) in directed histories. Range is checked on every call; purity against the same triple elsewhere in the history and in a fresh process with another entropy key; java.util.Random/BigInteger and truncated-LCG reference models. Sampling, not proof; the two recorded defects (F6, F7) are reported as KNOWN-FINDING.",
         note="Trusts: SimEntropy replaces rng.os only (C-level seeding of unseeded mt19937/numpy generators is not controlled and those values are only range-checked); the JDK transcription and L'Ecuyer multiplier table in dst/engine_d.py.",
         design_ref="DESIGN.md §4 C20"),
 }
@@ -38,7 +38,7 @@ CLAIMED.update({
     "C10": dict(
         engine="B",
         technique="deterministic simulation: seeded cache histories on EcCurve objects (named singletons and tiny prime-order curves, exhaustive x on the tiny ones) with restarts and allocation failures inside the table build, planted-log oracle from independent arithmetic; plus check-level histories in engine A",
-        text="BatchDL / BatchDLOfDifferences / BatchMultiplyG calls of different bounds and list lengths are interleaved on the same curve object so that each call meets a table left by a larger, smaller or differently-purposed earlier call; on tiny prime-order curves every x below the bound is checked for every (bound, length, history prefix) visited, on named curves x is biased to table and giant-step edges; close pairs must be flagged on both sides, identical keys not, relations must verify. Engine A plants statement-derived structured private keys (all shifts that are multiples of 8, repeated words, boundary values) and small-difference pairs into EC histories, including tables above 2^20 entries.",
+        text="BatchDL / BatchDLOfDifferences / BatchMultiplyG calls of different bounds and list lengths are interleaved on the same curve object so that each call meets a table left by a larger, smaller or differently-purposed earlier call; on tiny prime-order curves every x below the bound is checked for every (bound, length, history prefix) visited, on named curves x is biased to table and giant-step edges; close pairs must be flagged on both sides, identical keys not, relations must verify. A non-gating asynchronous-abort probe (sys.monitoring line events) reports ROBUSTNESS-NOTE only. Engine A plants statement-derived structured private keys (all shifts that are multiples of 8, repeated words, boundary values) and small-difference pairs into EC histories, including tables above 2^20 entries.",
         note="Trusts: the independent affine arithmetic used for ground truth; tiny curves from brute-force point counting.",
         design_ref="DESIGN.md §4 C10"),
     "C13": dict(
